@@ -423,7 +423,7 @@ impl Prop for C15 {
     fn plan(&self, tier: Tier) -> Plan {
         match tier {
             Tier::Quick => Plan { runs: 192, time_box_s: None, isolation: Isolation::Threads },
-            Tier::Thorough => Plan { runs: 4000, time_box_s: Some(420), isolation: Isolation::Threads },
+            Tier::Thorough => Plan { runs: 30_000, time_box_s: Some(420), isolation: Isolation::Threads },
         }
     }
     fn generate(&self, rc: &RunCtx) -> Case {
